@@ -530,11 +530,14 @@ Definition all_of_pass (n : node) (m : cmap) : result cmap :=
 Definition check_compatibility (n : node) (m : cmap) : result cmap :=
   if forallb (fun p => compat_ok (fst p) (n_kind n)) m then Ok m else Err ErrUnexpectedConstraint.
 
-Definition check_links (m : cmap) : result cmap :=
+(* fix d925ea9: "nullable" next to the list of types - the example may be null *)
+Definition null_under_nullable (n : node) (m : cmap) : bool :=
+  match lookup "nullable" m with Some (CBool true) => nkind_eqb (n_kind n) NNull | _ => false end.
+Definition check_links (n : node) (m : cmap) : result cmap :=
   match lookup "types" m with
   | Some (CTypes _ _ known fits) =>
     if negb known then Err ErrTypeNotFound
-    else if negb fits then Err ErrIncorrectUserType
+    else if negb (fits || null_under_nullable n m) then Err ErrIncorrectUserType
     else Ok m
   | _ => Ok m
   end.
@@ -616,7 +619,7 @@ Definition check_additional_properties (m : cmap) : result cmap :=
 
 Definition check_schema_node (n : node) (m : cmap) : result cmap :=
   do m <- check_compatibility n m;
-  do m <- check_links m;
+  do m <- check_links n m;
   match n_kind n with
   | NObject => check_additional_properties m
   | NArray => check_array_node n m
